@@ -126,6 +126,12 @@ class NT(Sym):
             raise AnalysisError(f"transpose{tuple(axes)} of a rank-{self.ndim} tensor")
         return self._new([self.legs[a] for a in axes])
 
+    def swapaxes(self, a, b):
+        n = len(self.legs)
+        order = list(range(n))
+        order[a % n], order[b % n] = order[b % n], order[a % n]
+        return self._new([self.legs[i] for i in order])
+
     def reshape(self, *shape):
         shape = list(shape[0]) if len(shape) == 1 and isinstance(shape[0], (list, tuple)) else list(shape)
         # elementary axes in order: a merged axis counts as its parts (a cut merged axis cannot be split)
@@ -296,6 +302,10 @@ def moveaxis(a, source, destination):
     return a.transpose(order)
 
 
+def swapaxes(a, i, j):
+    return a.swapaxes(i, j)
+
+
 def transpose(a, axes=None):
     return a.T if axes is None else a.transpose(axes)
 
@@ -339,7 +349,7 @@ def einsum(spec, *ops):
 def np_namespace(**extra):
     """stand-in for the numpy / backend module in an abstract run over NT tensors"""
     from .syminterp import OpenSym, Blob
-    ns = OpenSym("np", make=lambda t: Blob(t), tensordot=tensordot, moveaxis=moveaxis, transpose=transpose, einsum=einsum, asarray=lambda x, *a, **k: x, array=lambda x, *a, **k: x,
+    ns = OpenSym("np", make=lambda t: Blob(t), tensordot=tensordot, moveaxis=moveaxis, swapaxes=swapaxes, transpose=transpose, einsum=einsum, asarray=lambda x, *a, **k: x, array=lambda x, *a, **k: x,
                  conj=lambda x: x.conj(), conjugate=lambda x: x.conj(), ascontiguousarray=lambda x: x, reshape=lambda x, s: x.reshape(s), ndarray="np.ndarray")
     ns.__dict__.update(extra)
     return ns
